@@ -366,8 +366,10 @@ Section Core.
     | AUnchanged => SOk old
     | _ =>
       let given := negb (a_not_given new) in
+      (* the preparer sees a given new value; when starting from scratch (`replace`)
+         it is also asked to populate the value and is handed MISSING *)
       base <~ (if given then run_prep prep new
-               else SOk (if replace then AMissing else old)) ;;
+               else if replace then run_prep prep AMissing else SOk old) ;;
       let attrs := match kws with Some l => l | None => [] end in
       let as_kwargs := match ctor, ety with
                        | Some _, Some t => a_is_dict base && negb (conforms ct t (ADict []))
